@@ -290,10 +290,107 @@ Section WhileShape.
   Qed.
 End WhileShape.
 
+(* ---- shape 3: `for part in parts` with an explicit counter of consumed parts (incremented in the body),
+        result '.'.join([full_name] + parts[consumed:]) *)
+Section ForCounterShape.
+  Variable st : state.
+  Variables (B : env -> res) (vparts vo vp vf vc : var).
+
+  Definition forc_body_spec : Prop :=
+    forall en o k p pv, en vo = Some (VObjV o) -> en vparts = Some pv -> en vc = Some (VInt (Z.of_nat k)) ->
+      let en1 := setv en vp (VStr [p]) in
+      let '(q, brk) := step_fn st o (Nat.eqb k 0) p in
+      if brk then
+        exists en2, B en1 = RBreak en2 /\ en2 vf = Some (VStr q) /\ en2 vc = Some (VInt (Z.of_nat (S k))) /\ en2 vparts = Some pv
+      else match obj_for st q with
+           | None => exists en2, B en1 = RBreak en2 /\ en2 vf = Some (VStr q) /\ en2 vc = Some (VInt (Z.of_nat (S k)))
+                                 /\ en2 vparts = Some pv
+           | Some nxt => exists en2, B en1 = RNormal en2 /\ en2 vf = Some (VStr q) /\ en2 vc = Some (VInt (Z.of_nat (S k)))
+                                     /\ en2 vparts = Some pv /\ en2 vo = Some (VObjV nxt)
+           end.
+
+  Lemma forc_expand_rule : forc_body_spec ->
+    forall suffix o k j en pv, suffix <> [] -> en vo = Some (VObjV o) -> en vparts = Some pv ->
+      en vc = Some (VInt (Z.of_nat k)) ->
+    exists en' fn C,
+      for_loop B None vp j (map (fun n => VStr [n]) suffix) en = RNormal en' /\
+      en' vf = Some (VStr fn) /\ en' vc = Some (VInt (Z.of_nat C)) /\ en' vparts = Some pv /\
+      (k < C)%nat /\ fn ++ skipn (C - k) suffix = expand_from st o (Nat.eqb k 0) suffix.
+  Proof.
+    intros HB. induction suffix as [|p rest IH]; intros o k j en pv Hne Ho Hp Hc; [congruence|].
+    cbn [map for_loop]. rewrite expand_from_step.
+    specialize (HB en o k p pv Ho Hp Hc). cbn zeta in HB.
+    destruct (step_fn st o (Nat.eqb k 0) p) as [q brk]. destruct brk.
+    - destruct HB as [en2 [HBe [Hf [Hc2 Hpp]]]]. rewrite HBe.
+      exists en2, q, (S k). replace (S k - k)%nat with 1%nat by lia. repeat split; auto.
+    - destruct (obj_for st q) as [nxt|] eqn:Eo.
+      + destruct HB as [en2 [HBe [Hf [Hc2 [Hpp Hon]]]]]. rewrite HBe.
+        destruct rest as [|p2 rest].
+        * cbn [map for_loop]. exists en2, q, (S k). replace (S k - k)%nat with 1%nat by lia.
+          repeat split; auto. cbn. apply app_nil_r.
+        * destruct (IH nxt (S k) (S j) en2 pv ltac:(discriminate) Hon Hpp Hc2) as [en' [fn [C [Hl [Hf' [Hc' [Hp' [Hle Heq]]]]]]]].
+          exists en', fn, C. repeat split; auto; [lia|].
+          replace (C - k)%nat with (S (C - S k)) by lia. cbn [skipn]. exact Heq.
+      + destruct HB as [en2 [HBe [Hf [Hc2 Hpp]]]]. rewrite HBe.
+        exists en2, q, (S k). replace (S k - k)%nat with 1%nat by lia. repeat split; auto. cbn [skipn].
+        destruct rest; [apply app_nil_r | reflexivity].
+  Qed.
+End ForCounterShape.
+
+(* ---- shape 4: the first part looked up before a `while obj is not None and used < len(parts)` loop that keeps the object
+        the expanded prefix denotes (None once a part is not found), result '.'.join([full_name] + parts[used:]) *)
+Section WhileObjShape.
+  Variable st : state.
+  Variables (B : env -> res) (cond : env -> option ival) (vparts vf vu vobj : var) (all : list name).
+
+  Definition ostate (en : env) (q : path) (c : nat) (oo : option obj) : Prop :=
+    en vf = Some (VStr q) /\ en vu = Some (VInt (Z.of_nat c)) /\
+    en vparts = Some (VList (map (fun n => VStr [n]) all)) /\ en vobj = Some (of_opt_obj oo) /\
+    (c <= length all)%nat.
+
+  Definition wo_cond_spec : Prop :=
+    forall en q c oo, ostate en q c oo -> cond en = Some (VBool (is_some oo && Nat.ltb c (length all))).
+
+  Definition wo_body_spec : Prop :=
+    forall en q c nxt p, ostate en q c (Some nxt) -> nth_error all c = Some p ->
+      let '(q', brk) := step_fn st nxt false p in
+      exists en2, (B en = RNormal en2 \/ B en = RContinue en2) /\
+                  ostate en2 q' (S c) (if brk then None else obj_for st q').
+
+  Definition wo_target (q : path) (c : nat) (oo : option obj) : path :=
+    match oo with
+    | None => q ++ skipn c all
+    | Some nxt => match skipn c all with [] => q | rs => expand_from st nxt false rs end
+    end.
+
+  Lemma wo_expand_rule : wo_cond_spec -> wo_body_spec ->
+    forall fuel c en q oo, (length all - c < fuel)%nat -> ostate en q c oo ->
+    exists en' fn K oo', while_loop cond B fuel en = RNormal en' /\ ostate en' fn K oo' /\
+                         fn ++ skipn K all = wo_target q c oo.
+  Proof.
+    intros Hcs HB. induction fuel as [|f IH]; intros c en q oo Hf Hw; [lia|].
+    cbn [while_loop]. rewrite (Hcs en q c oo Hw). cbn [truthy]. unfold wo_target.
+    destruct oo as [nxt|]; cbn [is_some andb].
+    - destruct (Nat.ltb c (length all)) eqn:El.
+      + apply Nat.ltb_lt in El.
+        destruct (nth_error all c) as [p|] eqn:En; [|apply nth_error_None in En; lia].
+        specialize (HB en q c nxt p Hw En). rewrite (nth_error_skipn _ _ _ En). rewrite expand_from_step.
+        destruct (step_fn st nxt false p) as [q' brk]. destruct HB as [en2 [HBe Hw2]].
+        assert (Hlen : (length all - S c < f)%nat) by lia.
+        destruct (IH (S c) en2 q' _ Hlen Hw2) as [en' [fn [K [oo' [Hl [Hw' Heq]]]]]].
+        exists en', fn, K, oo'. split; [destruct HBe as [E|E]; rewrite E; exact Hl|]. split; [exact Hw'|].
+        rewrite Heq. unfold wo_target. destruct brk; [reflexivity|].
+        destruct (obj_for st q'); destruct (skipn (S c) all); try reflexivity. apply app_nil_r.
+      + apply Nat.ltb_ge in El. exists en, q, c, (Some nxt). split; [reflexivity|]. split; [exact Hw|].
+        rewrite skipn_all2 by exact El. apply app_nil_r.
+    - exists en, q, c, None. auto.
+  Qed.
+End WhileObjShape.
+
 Lemma of_nat_succ_z : forall c, (Z.of_nat c + 1)%Z = Z.of_nat (S c).
 Proof. intro c. lia. Qed.
 
-(* ---- the two proof scripts, as tactics: symbolic execution of the translated loop body against the model's step,
+(* ---- the proof scripts of the four shapes, as tactics: symbolic execution of the translated loop body against the model's step,
         then the loop rule of the shape *)
 Ltac for_body_tac st :=
   intros en o k p pv Hvo Hparts; unfold step_fn, find_for, cfind;
@@ -399,8 +496,138 @@ Ltac while_shape_tac st ctx dotted fuel Hne Hfuel :=
     [ while_body_tac st | while_rest_tac st ctx dotted fuel Hne Hfuel HB ]
   end.
 
-(* Documentable.expandName, as it is in the source NOW (two loop shapes are recognised: `for i, p in enumerate(parts)`
-   with breaks, and a first lookup followed by `while True` with a counter): interpreting the translated body is
+Lemma ltb_1_succ : forall k, (1 <? Z.of_nat (S k))%Z = negb (Nat.eqb k 0).
+Proof. destruct k; [reflexivity|]. cbn [Nat.eqb negb]. apply Z.ltb_lt. lia. Qed.
+Lemma eqb_succ_1 : forall k, (Z.of_nat (S k) =? 1)%Z = Nat.eqb k 0.
+Proof. destruct k; [reflexivity|]. cbn [Nat.eqb]. apply Z.eqb_neq. lia. Qed.
+Lemma ltb_succ_2 : forall k, (Z.of_nat (S k) <? 2)%Z = Nat.eqb k 0.
+Proof. destruct k; [reflexivity|]. cbn [Nat.eqb]. apply Z.ltb_ge. lia. Qed.
+
+Ltac forc_body_tac st :=
+  let en := fresh "en" in let o := fresh "o" in let k := fresh "k" in let p := fresh "p" in let pv := fresh "pv" in
+  let Hvo := fresh "Hvo" in let Hparts := fresh "Hparts" in let Hc := fresh "Hc" in let Ek := fresh "Ek" in
+  intros en o k p pv Hvo Hparts Hc; unfold step_fn, find_for, cfind;
+  destruct (Nat.eqb k 0) eqn:Ek;
+  (repeat (progress (cbn -[l2f find_member Z.of_nat Z.eqb Z.ltb Z.add];
+                     rewrite ?Hvo, ?Hparts, ?Hc, ?of_nat_succ_z, ?ltb_1_succ, ?eqb_succ_1, ?ltb_succ_2, ?Ek);
+           step_cases st o p);
+   objfor_cases st Hvo Hparts;
+   try congruence; tidy; try congruence;
+   try (eexists; repeat split; cbn -[l2f find_member Z.of_nat Z.eqb Z.ltb Z.add];
+        rewrite ?Hvo, ?Hparts, ?Hc, ?of_nat_succ_z; reflexivity)).
+
+Ltac forc_rest_tac st ctx dotted Hne HB :=
+  let en' := fresh "en'" in let fn := fresh "fn" in let C := fresh "C" in let Hloop := fresh "Hloop" in
+  let Hf := fresh "Hf" in let Hc := fresh "Hc" in let Hp := fresh "Hp" in let Heq := fresh "Heq" in
+  skeleton; rewrite (split_dots_map dotted Hne);
+  match goal with
+  | |- context [for_loop ?B None ?vp 0 _ ?en0] =>
+    match type of HB with forc_body_spec _ _ ?vparts ?vo _ ?vf ?vc =>
+      destruct (forc_expand_rule st B vparts vo vp vf vc HB dotted ctx 0%nat 0%nat en0
+                  (VList (map (fun n => VStr [n]) dotted)) Hne eq_refl eq_refl eq_refl)
+        as [en' [fn [C [Hloop [Hf [Hc [Hp [_ Heq]]]]]]]]
+    end
+  end;
+  match goal with |- context [for_loop ?a ?b ?c ?d ?e ?f] =>
+    replace (for_loop a b c d e f) with (RNormal en') by (symmetry; exact Hloop) end;
+  rewrite exec_return; cbn [eval]; rewrite Hf, Hc, Hp;
+  destruct (Z.ltb_spec (Z.of_nat C) 0); [lia|]; rewrite Nat2Z.id, skipn_map;
+  cbn [app]; rewrite join_cons_segs;
+  unfold expand_name; change (Nat.eqb 0 0) with true in Heq; rewrite <- Heq;
+  replace (C - 0)%nat with C by lia; reflexivity.
+
+Ltac forc_shape_tac st ctx dotted fuel Hne :=
+  unfold run_body, code_expand_name;
+  match goal with
+  | |- context [SAssign ?vo ESelf] =>
+    match goal with
+    | |- context [SFor None ?vp (EVar ?vparts) ?body] =>
+      match goal with
+      | |- context [SReturn (EJoin (EConcat (ESingleton (EVar ?vf)) (ESliceFrom (EVar vparts) (EVar ?vc))))] =>
+        let HB := fresh "HB" in
+        assert (HB : forc_body_spec st (exec st ctx (VStr dotted) (l2f st) (cfind st) (fun _ => []) body fuel) vparts vo vp vf vc);
+        [ forc_body_tac st | forc_rest_tac st ctx dotted Hne HB ]
+      end
+    end
+  end.
+
+Lemma ltb_of_nat : forall a b, (Z.of_nat a <? Z.of_nat b)%Z = Nat.ltb a b.
+Proof.
+  intros a b. destruct (Nat.ltb a b) eqn:E.
+  - apply Nat.ltb_lt in E. apply Z.ltb_lt. lia.
+  - apply Nat.ltb_ge in E. apply Z.ltb_ge. lia.
+Qed.
+
+Ltac wo_cond_tac :=
+  let en := fresh "en" in let q := fresh "q" in let c := fresh "c" in let oo := fresh "oo" in
+  let Hf := fresh "Hf" in let Hu := fresh "Hu" in let Hp := fresh "Hp" in let Ho := fresh "Ho" in let Hle := fresh "Hle" in
+  intros en q c oo [Hf [Hu [Hp [Ho Hle]]]];
+  cbn -[Z.of_nat Z.ltb Nat.ltb]; rewrite ?Ho, ?Hu, ?Hp;
+  destruct oo; cbn -[Z.of_nat Z.ltb Nat.ltb]; rewrite ?Ho, ?Hu, ?Hp, ?map_length, ?ltb_of_nat;
+  cbn -[Z.of_nat Z.ltb Nat.ltb]; rewrite ?map_length, ?ltb_of_nat; reflexivity.
+
+Ltac wo_body_tac st all :=
+  let en := fresh "en" in let q := fresh "q" in let c := fresh "c" in let nxt := fresh "nxt" in let p := fresh "p" in
+  let Hf := fresh "Hf" in let Hu := fresh "Hu" in let Hp := fresh "Hp" in let Ho := fresh "Ho" in let Hle := fresh "Hle" in
+  let En := fresh "En" in let E2 := fresh "E2" in let E3 := fresh "E3" in let Hlt := fresh "Hlt" in
+  intros en q c nxt p [Hf [Hu [Hp [Ho Hle]]]] En;
+  assert (Hlt : (S c <= length all)%nat) by (apply nth_error_Some; congruence);
+  assert (E2 : (Z.of_nat c <? 0)%Z = false) by (apply Z.ltb_ge; lia);
+  assert (E3 : nth_error (map (fun n : name => VStr [n]) all) (Z.to_nat (Z.of_nat c)) = Some (VStr [p]))
+    by (rewrite Nat2Z.id, nth_error_map, En; reflexivity);
+  cbn [of_opt_obj] in Ho;
+  unfold step_fn, find_for, cfind;
+  repeat (progress (cbn -[l2f find_member Z.of_nat Z.eqb Z.ltb Z.to_nat nth_error Z.add obj_for];
+                    rewrite ?Hf, ?Hu, ?Hp, ?Ho, ?E2, ?E3, ?of_nat_succ_z); step_cases st nxt p);
+  try congruence; tidy; try congruence;
+  (eexists; split; [first [left; reflexivity | right; reflexivity]|];
+   unfold ostate; repeat split;
+   cbn -[l2f find_member Z.of_nat Z.eqb Z.ltb Z.to_nat nth_error Z.add obj_for];
+   rewrite ?Hf, ?Hu, ?Hp, ?Ho, ?of_nat_succ_z; try reflexivity; try lia).
+
+Ltac wo_rest_tac st ctx dotted fuel Hne Hfuel HC HB :=
+  let en' := fresh "en'" in let fn := fresh "fn" in let K := fresh "K" in let oo' := fresh "oo'" in
+  let Hloop := fresh "Hloop" in let Hf := fresh "Hf" in let Hu := fresh "Hu" in let Hp := fresh "Hp" in
+  let Ho := fresh "Ho" in let Hle := fresh "Hle" in let Heq := fresh "Heq" in
+  let p0 := fresh "p0" in let rest := fresh "rest" in
+  destruct dotted as [|p0 rest]; [congruence|];
+  skeleton; try (rewrite (split_dots_map (p0 :: rest) Hne); skeleton);
+  match goal with
+  | |- context [while_loop ?cond ?B fuel ?en0] =>
+    match type of HB with forall a, wo_body_spec _ _ ?vparts ?vf ?vu ?vobj a =>
+      destruct (wo_expand_rule st B cond vparts vf vu vobj (p0 :: rest) (HC (p0 :: rest)) (HB (p0 :: rest))
+                  fuel 1%nat en0 (l2f st ctx p0) (obj_for st (l2f st ctx p0)))
+        as [en' [fn [K [oo' [Hloop [[Hf [Hu [Hp [Ho Hle]]]] Heq]]]]]];
+      [ cbn [length] in Hfuel |- *; lia
+      | unfold ostate; repeat split; try reflexivity; cbn [length]; lia
+      | ]
+    end
+  end;
+  match goal with |- context [while_loop ?a ?b ?c ?d] =>
+    replace (while_loop a b c d) with (RNormal en') by (symmetry; exact Hloop) end;
+  rewrite exec_return; cbn [eval]; rewrite Hf, Hu, Hp;
+  destruct (Z.ltb_spec (Z.of_nat K) 0); [lia|]; rewrite Nat2Z.id, skipn_map;
+  cbn [app]; rewrite join_cons_segs; rewrite Heq;
+  unfold expand_name; rewrite expand_from_step; unfold step_fn, wo_target; cbn [negb andb skipn]; rewrite andb_false_r; cbn [andb];
+  destruct (obj_for st (l2f st ctx p0)); destruct rest; try reflexivity; rewrite ?app_nil_r; reflexivity.
+
+Ltac wo_shape_tac st ctx dotted fuel Hne Hfuel :=
+  unfold run_body, code_expand_name;
+  match goal with
+  | |- context [SSeq (SWhile ?c ?body) (SReturn (EJoin (EConcat (ESingleton (EVar ?vf)) (ESliceFrom (EVar ?vparts) (EVar ?vu)))))] =>
+    match c with context [EIsNotNone (EVar ?vobj)] =>
+      let HC := fresh "HC" in let HB := fresh "HB" in let a := fresh "a" in
+      assert (HC : forall a, wo_cond_spec (fun en' => eval st ctx (VStr dotted) (l2f st) (cfind st) (fun _ => []) en' c) vparts vf vu vobj a);
+      [ intro a; wo_cond_tac
+      | assert (HB : forall a, wo_body_spec st (exec st ctx (VStr dotted) (l2f st) (cfind st) (fun _ => []) body fuel) vparts vf vu vobj a);
+        [ intro a; wo_body_tac st a | wo_rest_tac st ctx dotted fuel Hne Hfuel HC HB ] ]
+    end
+  end.
+
+(* Documentable.expandName, as it is in the source NOW (four loop shapes are recognised, each with its own loop
+   rule proved above: `for i, p in enumerate(parts)` with breaks; `for p in parts` with breaks and a counter of consumed
+   parts; a first lookup followed by `while True` with a counter; a first lookup followed by
+   `while obj is not None and used < len(parts)` whose body may call a translated module-level helper): interpreting the translated body is
    expand_name of Model/Names.v, for every registry state, context object and non-empty dotted name; in particular it
    neither raises nor runs out of fuel when fuel >= number of segments. *)
 Theorem code_expand_name_is_model : forall st ctx dotted fuel,
@@ -409,5 +636,8 @@ Theorem code_expand_name_is_model : forall st ctx dotted fuel,
   = RReturn (VStr (expand_name st ctx dotted)).
 Proof.
   intros st ctx dotted fuel Hne Hfuel.
-  first [ solve [for_shape_tac st ctx dotted fuel Hne] | solve [while_shape_tac st ctx dotted fuel Hne Hfuel] ].
+  first [ solve [for_shape_tac st ctx dotted fuel Hne]
+        | solve [forc_shape_tac st ctx dotted fuel Hne]
+        | solve [wo_shape_tac st ctx dotted fuel Hne Hfuel]
+        | solve [while_shape_tac st ctx dotted fuel Hne Hfuel] ].
 Qed.
